@@ -123,14 +123,15 @@ class C17(Property):
     level_text = ("grade A for the accounting: executions <= max_retries, executions = version, exhausted => the workflow fails and stops, dummy manager "
                   "fails at once — proved for every failure sequence; the guard is re-read from the source on every run")
     level_note = "Lean kernel, axioms within {propext, Classical.choice, Quot.sound}; the recovery workflow itself is a runtime layer exercised by K"
-    quick_budget_s = 480
+    quick_budget_s = 2400        # room for one confirmation re-run of a timed-out case (5x its bound), see recov.run_confirmed
+    thorough_budget_s = 6000
     min_nontrivial = 8
 
     def explore(self, ctx: Ctx) -> None:
         quick = ctx.tier == "quick" and ctx.mode != "search"
         cases = gen_cases(ctx.rng, quick)
         lines, meta = [], []
-        for case, status, r in recov.run_cases(cases, timeout=300, workers=6):
+        for case, status, r in recov.run_cases(cases, timeout=300, workers=6, ctx=ctx):
             if status != "ok":
                 ctx.fail("run:" + status, f"{case['name']}: {str(r)[:300]}", {"recovery": case})
                 continue
